@@ -1,6 +1,7 @@
 package rules
 
 import (
+	"math"
 	"bytes"
 	"fmt"
 	"go/ast"
@@ -991,38 +992,31 @@ func c18R5(c *Ctx) {
 	// min-clamped fields
 	for _, fname := range []string{"Timeout", "MaxResponseBytes"} {
 		g := kit.NewGates()
-		for _, b := range fn.Blocks {
-			for _, in := range b.Instrs {
-				cmp, ok := in.(*ssa.BinOp)
-				if !ok {
-					continue
-				}
-				switch {
-				case cmp.Op == token.GTR && isFieldOfParam(cmp.Y, "ceiling", fname) && fieldNamed(cmp.X, fname):
-					// eff.F > ceiling.F: passing this comparison (either way) means the clamp was evaluated
+		isEff := func(v ssa.Value) bool { return fieldNamed(v, fname) && !isFieldOfParam(v, "ceiling", fname) }
+		isCeil := func(v ssa.Value) bool { return isFieldOfParam(v, "ceiling", fname) }
+		// the clamp comparison eff.F vs ceiling.F, however it is spelled: passing it (either way)
+		// means the clamp was evaluated, and its eff.F > ceiling.F edge must store the ceiling
+		clamp := kit.RelEdges(fn, isEff, isCeil, kit.RelGT)
+		seenCmp := map[*ssa.BasicBlock]bool{}
+		for _, e := range clamp {
+			if ifi, ok := e.From.Instrs[len(e.From.Instrs)-1].(*ssa.If); ok {
+				if cmp, ok := ifi.Cond.(ssa.Instruction); ok && !seenCmp[e.From] {
+					seenCmp[e.From] = true
 					g.AddInstr(cmp, "eff."+fname+" > ceiling."+fname)
-					// and the true edge must store ceiling.F into eff.F
-					stored := false
-					for _, e := range kit.CondEdges(cmp, true) {
-						for _, in2 := range e.To.Instrs {
-							if s2, ok := in2.(*ssa.Store); ok {
-								if f := kit.FieldOf(s2.Addr); f != nil && f.Name() == fname && isFieldOfParam(s2.Val, "ceiling", fname) {
-									stored = true
-								}
-							}
-						}
-					}
-					c.R.Check(stored, r, "ResolvePolicy: "+fname+" clamp assigns the ceiling", c.Pos(cmp.Pos()), "eff."+fname+" = ceiling."+fname, "the "+fname+" clamp does not assign the ceiling value", true)
-				case isFieldOfParam(cmp.X, "ceiling", fname) && kit.IsIntConst(cmp.Y, 0):
-					switch cmp.Op {
-					case token.GTR:
-						g.AddEdges(kit.CondEdges(cmp, false), "ceiling."+fname+" unset")
-					case token.LEQ:
-						g.AddEdges(kit.CondEdges(cmp, true), "ceiling."+fname+" unset")
+				}
+			}
+			stored := false
+			for _, in2 := range e.To.Instrs {
+				if s2, ok := in2.(*ssa.Store); ok {
+					if f := kit.FieldOf(s2.Addr); f != nil && f.Name() == fname && isFieldOfParam(s2.Val, "ceiling", fname) {
+						stored = true
 					}
 				}
 			}
+			c.R.Check(stored, r, "ResolvePolicy: "+fname+" clamp assigns the ceiling", c.Pos(e.To.Instrs[0].Pos()), "eff."+fname+" = ceiling."+fname, "the "+fname+" clamp does not assign the ceiling value", true)
 		}
+		// ceiling.F unset (<= 0): nothing to clamp to
+		g.AddEdges(kit.IntRangeEdges(fn, isCeil, math.MinInt64, 0), "ceiling."+fname+" unset")
 		c.Dominated(r, "ResolvePolicy: "+fname+" clamped on every enabled return", enabledRets, g, "the eff."+fname+" > ceiling."+fname+" clamp (or ceiling."+fname+" unset)")
 	}
 	// SecretRefs: intersectRefs store or ceiling has none
